@@ -122,11 +122,35 @@ def uses_colnames(prog):
     return False
 
 
+def positional_ok(args):
+    pos = [a[0] for a in args if isinstance(a[0], int)]
+    return pos == list(range(len(pos))) and \
+        all(isinstance(a[0], int) for a in args[:len(pos)])
+
+
+def printable(prog):
+    """The printer writes positional arguments without their index: the AST and the
+    text agree only if they are 0..k-1, in order, before the named ones."""
+    for r in prog['rules']:
+        if not positional_ok(r['head']):
+            return False
+        for l in common.walk_lits(r['body']):
+            if l[0] == 'call' and not positional_ok(l[2]):
+                return False
+        for e in common.rule_exprs(r):
+            if e[0] == 'fcall' and not positional_ok(e[2]):
+                return False
+    return True
+
+
 def verdict(prog, assume=()):
     """-> dict expect: accept | reject | skip, why, cls, ground, sigs, conflicts"""
     inc = INCLUDE | set(assume)
     v = {'expect': 'skip', 'why': '', 'cls': None, 'ground': False, 'sigs': None,
          'excluded': []}
+    if not printable(prog):
+        v['why'] = 'unsupported:positional_arguments_not_a_prefix'
+        return v
     try:
         lax_opts = {'neq'} if 'neq' in inc else set()
         lax = typeref.Checker(prog, strict=False)
@@ -450,7 +474,11 @@ def evaluate(prog, engine='sqlite', assume=(), run_values=False, compile_sql=Tru
     mine = v['sigs']
     diffs = sig_diff(mine, compiler_sigs(p, sorted(mine)))
     if diffs:
-        return fail('signature_differs', '\n'.join(diffs))
+        sub = ''
+        if any(e[0] == 'inx' for r in prog['rules'] for h in model.head_exprs(r)
+               for e in common.walk_exprs_of_expr(h)):
+            sub = ':in_expression_as_value'
+        return fail('signature_differs' + sub, '\n'.join(diffs))
     if engine != 'sqlite' or not compile_sql:
         return res
     ck = v['checker']
@@ -689,7 +717,8 @@ def minimise(case, bucket):
 
 
 def known_match(entry, bucket):
-    return bucket == entry['key'] or bucket in entry.get('buckets', ())
+    """Keys are bucket prefixes: 'clash_accepted:neq' covers every pair of types."""
+    return bucket == entry['key'] or bucket.startswith(entry['key'] + ':')
 
 
 def evidence_extra(col):
